@@ -86,6 +86,66 @@ func resultValue(vals []Value, n int) Value {
 
 // callFunc calls a statically known function.
 func (x *exec) callFunc(s *State, fn *ssa.Function, args []Value, bind []Value, pos token.Pos) Value {
+	r := x.callFunc1(s, fn, args, bind, pos)
+	x.afterCall(s, fn, args)
+	return r
+}
+
+// afterCall applies the "atcall" ghost updates of the contract under verification:
+//
+//	//@ atcall (*Piece).setState :: oldstate == 0 && state == 2 :: Ghost_own = true
+func (x *exec) afterCall(s *State, fn *ssa.Function, args []Value) {
+	e := x.e
+	t := x.topExec()
+	if t.contract == nil || s.pc.IsFalse() {
+		return
+	}
+	for _, cl := range t.contract.Of("atcall") {
+		parts := strings.Split(cl.Text, "::")
+		if len(parts) != 3 {
+			continue
+		}
+		if !strings.HasSuffix(FuncKey(fn), "."+strings.TrimSpace(parts[0])) {
+			continue
+		}
+		asg := strings.SplitN(parts[2], "=", 2)
+		if len(asg) != 2 {
+			continue
+		}
+		name := strings.TrimSpace(asg[0])
+		cell, ok := t.ghostCells[name]
+		if !ok {
+			continue
+		}
+		cs, err := e.calleeScope(&Block{}, fn, FuncKey(fn))
+		if err != nil {
+			continue
+		}
+		ev := func(text, label string) Value {
+			sub := &Clause{Kind: "atcall", Text: strings.TrimSpace(text), File: cl.File, Line: cl.Line, Label: cl.Text + label}
+			be := e.bind(sub, nil, nil, cs.pos, cs.sig, cs.pkg, e.P.Fset)
+			if be.err != nil {
+				t.bindFail(cl, be.err)
+				return nil
+			}
+			env := x.calleeEnv(s, s, cs, args)
+			env.info = be.info
+			return env.eval(be.expr)
+		}
+		cond, ok1 := ev(parts[1], "#cond").(*Term)
+		val := ev(asg[1], "#val")
+		if !ok1 || val == nil {
+			continue
+		}
+		cur, has := s.cells[cell]
+		if !has {
+			cur = e.zero(cell.T)
+		}
+		s.cells[cell] = e.mergeVal(cond, val, cur)
+	}
+}
+
+func (x *exec) callFunc1(s *State, fn *ssa.Function, args []Value, bind []Value, pos token.Pos) Value {
 	e := x.e
 	key := FuncKey(fn)
 	if fn.Synthetic != "" && fn.Blocks != nil && fn.Parent() == nil && !strings.HasPrefix(fn.Synthetic, "package init") {
@@ -241,7 +301,8 @@ func (x *exec) havocReachable(s *State, a Value) {
 		}
 	case SliceV:
 		// contents of the backing array row
-		for key, so := range e.heapSorts {
+		for _, key := range sortedSortKeys(e.heapSorts) {
+			so := e.heapSorts[key]
 			if strings.HasPrefix(key, "A:") && so.Elem.Kind == KArray {
 				h := e.heapGet(s, key, so)
 				e.noteWrite(s, key, wtarget{kind: wRow, arr: v.Arr, lo: v.Off, n: v.Cap})
@@ -286,7 +347,8 @@ func (x *exec) callbackCall(s *State, fv Value, args []Value, res *types.Tuple, 
 	}
 	// an unknown callback may change the whole heap
 	e.noteWrite(s, "*", wtarget{kind: wAll})
-	for key, so := range e.heapSorts {
+	for _, key := range sortedSortKeys(e.heapSorts) {
+		so := e.heapSorts[key]
 		if strings.HasPrefix(key, "ghost:") {
 			continue
 		}
@@ -533,14 +595,7 @@ func (x *exec) doAppend(s *State, args []Value, cc *ssa.CallCommon, pos token.Po
 	}
 	sGrow.alloc = c.Add(sGrow.alloc, c.Mul(ncap, c.IntC(sizeOf(el))))
 	// merge heaps by condition "fits" (pc unchanged)
-	keys := map[string]bool{}
-	for k := range sIn.heap {
-		keys[k] = true
-	}
-	for k := range sGrow.heap {
-		keys[k] = true
-	}
-	for k := range keys {
+	for _, k := range sortedStateKeys(sIn.heap, sGrow.heap) {
 		so := e.heapSorts[k]
 		s.heap[k] = c.Ite(fits, e.heapGet(sIn, k, so), e.heapGet(sGrow, k, so))
 	}
